@@ -1,6 +1,7 @@
 package main
 
 import (
+	"math"
 	"encoding/json"
 	"sort"
 
@@ -245,7 +246,7 @@ func init() {
 	h["DuplicateWithIndex"] = func(o tt.Op) tt.Res { return rll(pairs(gogu.DuplicateWithIndex(cp(o.L[0])))) }
 
 	// ------------------------------------------------------------------ C12
-	h["Chunk"] = func(o tt.Op) tt.Res { return rll(gogu.Chunk(cp(o.L[0]), o.A[0])) }
+	h["Chunk"] = func(o tt.Op) tt.Res { return rll(gogu.Chunk(cp(o.L[0]), xint(o.A[0]))) }
 	h["Partition"] = func(o tt.Op) tt.Res {
 		p := gogu.Partition(cp(o.L[0]), predInt(o.F))
 		return rll([][]int{p[0], p[1]})
@@ -270,7 +271,7 @@ func init() {
 		return rerr(r, err)
 	}
 	h["Merge"] = func(o tt.Op) tt.Res { l := lists(o); return rs(gogu.Merge(l[0], l[1:]...)) }
-	h["Drop"] = func(o tt.Op) tt.Res { return rs(gogu.Drop(cp(o.L[0]), o.A[0])) }
+	h["Drop"] = func(o tt.Op) tt.Res { return rs(gogu.Drop(cp(o.L[0]), xint(o.A[0]))) }
 	h["Reverse"] = func(o tt.Op) tt.Res {
 		in := cp(o.L[0])
 		r := gogu.Reverse(in)
@@ -319,3 +320,21 @@ func sparsePass(cfg Config, s *Summary, rec func(file string) (int, error)) erro
 	s.Extra["sparse_nodes"] = n
 	return nil
 }
+
+// xint: the limits of int do not fit the validator's 32-bit integers; +-2000000000 (+-2000000001) stand
+// for math.MaxInt / math.MinInt (and the values next to them) in the arguments of the index-taking helpers.
+func xint(v int) int {
+	switch v {
+	case 2000000000:
+		return math.MaxInt
+	case 2000000001:
+		return math.MaxInt - 1
+	case -2000000000:
+		return math.MinInt
+	case -2000000001:
+		return math.MinInt + 1
+	}
+	return v
+}
+
+var xints = []int{2000000000, 2000000001, -2000000000, -2000000001}
